@@ -315,6 +315,53 @@ def has(src, fragment):
     return False
 
 
+def _idents(tree):
+    out = set()
+    for n in ast.walk(tree):
+        if isinstance(n, ast.Attribute):
+            out.add(n.attr)
+        elif isinstance(n, ast.Name):
+            out.add(n.id)
+        elif isinstance(n, ast.Constant) and isinstance(n.value, str):
+            out.add(n.value)
+        elif isinstance(n, ast.keyword) and n.arg:
+            out.add(n.arg)
+    return out
+
+
+GENERIC = {'self', 'kwargs', 'args', 'o', 'cls', 'True', 'False', 'None', 'super', 'str', 'list', 'tuple', 'set', 'dict', 'len', 'copy'}
+
+
+def wiring(src, fragment, tokens=None, reshaped_if=None):
+    """Tri-state presence test for *wiring* rules ("statement S is part of function F"):
+    'ok'        the fragment is there (up to renaming of locals);
+    'absent'    the fragment is not there and at least one of the identifiers it is made of (attribute / function names,
+                string keys, keyword names -- or the explicit ``tokens``) no longer occurs anywhere in the function:
+                the step was removed;
+    'reshaped'  the fragment is not there in this form but all its identifiers still occur: the step may have been
+                rewritten in another idiom -- the caller must treat this as an unrecognised shape (ANALYSIS-ERROR), not
+                as a violation.
+    ``reshaped_if(tree)`` replaces the identifier heuristic by a rule-specific test for "some other construct may perform
+    the step" (e.g. any store to the same key)."""
+    if has(src, fragment):
+        return 'ok'
+    tree = _parsed(src)
+    if tree is None:
+        return 'absent'
+    if reshaped_if is not None:
+        return 'reshaped' if reshaped_if(tree) else 'absent'
+    if tokens is None:
+        pat = _parsed(fragment)
+        if pat is None and fragment.lstrip().startswith(('for ', 'if ', 'while ', 'with ')):
+            pat = _parsed(fragment.strip().rstrip(':') + ':\n    pass')
+        if pat is None:
+            return 'absent'
+        loc = _locals_of(tree) | {t.id for n in ast.walk(pat) if isinstance(n, ast.Assign) for t in n.targets if isinstance(t, ast.Name)}
+        tokens = {t for t in _idents(pat) if t not in GENERIC and t not in loc}
+    have = _idents(tree)
+    return 'reshaped' if all(t in have for t in tokens) else 'absent'
+
+
 def names_assigned_from(fnode, *needles):
     """names of plain-Name assignment targets whose assigned value's source contains every needle (definition-based
     look-up of a local variable, so that rules do not depend on what the local is called)"""
